@@ -62,3 +62,24 @@ def twoPhase (early : List Nat) : List Ev → (ended : Bool) → (held : List Na
   | .abort :: rest, _, held => twoPhase early rest true held     -- aborting twice is harmless
 
 end GoNfsd.Model.Locks
+
+/-! ### check and act in one transaction
+
+An operation that inserts a name into a directory must have looked that name up IN THE SAME
+TRANSACTION (the directory's lock is held from the lookup to the commit, so nobody can insert the
+name in between).  A lookup in an earlier transaction of the same request proves nothing: the
+lock was released.  `insertsChecked` validates the name events of one recorded transaction. -/
+namespace GoNfsd.Model.Locks
+
+inductive NameEv where
+  | lookup (key : Nat)     -- dir.LookupName(directory, name); key identifies (directory, name)
+  | insert (key : Nat)     -- dir.AddName(directory, name)
+  deriving DecidableEq, Repr
+
+/-- every insertion is preceded, in this transaction, by a lookup of the same (directory, name) -/
+def insertsChecked : List NameEv → (looked : List Nat) → Bool
+  | [], _ => true
+  | .lookup k :: rest, looked => insertsChecked rest (k :: looked)
+  | .insert k :: rest, looked => looked.contains k && insertsChecked rest looked
+
+end GoNfsd.Model.Locks
